@@ -12,6 +12,12 @@ CHECKS = {
         ref='6/C01'),
 }
 
+CHECKS['C02'] = dict(
+    technique='TLA+ LR(0)/LALR(1) spec: DeRemer-Pennello transcription model-checked against LR(1) look-ahead propagation (TLC) + trace validation of real parse tables, GrammarErrors, parse outcomes and InteractiveParser stacks/choices/accepts',
+    text='TLC proves on F_bnf that lark\'s DeRemer-Pennello look-aheads equal LR(1)-propagation look-aheads on reduced grammars and that the driver with lark\'s conflict policy is sound and (without S/R conflicts) complete; the same TLA+ definitions then judge the real debug parse table state by state, the GrammarError decision, the accept/reject outcome under both lexers and every intermediate stack, choices() and accepts() of the real InteractiveParser.',
+    note='bounded families (<=3 rules, inputs <=4, priorities on rule names); table exactness on reduced grammars judged against L0, on non-reduced against the L1 transcription',
+    ref='6/C02')
+
 NOT_APPLICABLE = []
 
 
